@@ -1,7 +1,16 @@
 """C17, fingerprint part - converting fingerprints between bit, count and float kinds preserves the set of non-zero
 positions and, where representable, the values; a count fingerprint built from an index multiset has support = the set
 and counts = multiplicities.  Lemmas: Proofs/FprintConv.v (convert_support, convert_values, convert_nz_support,
-count_is_multiplicity_fp).  Exposes part(ctx) -> found_input for props/c17.py."""
+count_is_multiplicity_fp).  Exposes part(ctx) -> found_input for props/c17.py.
+
+Streams: 1 conversions of well-formed fingerprints built by from_indices / from_counts (all nine ordered pairs);
+2 count fingerprints from an index multiset; 3 sources outside the domain (zero / negative counts: recorded);
+4 sources that reached their state by another route (folded, carrying a fold cache, from a dense / sparse vector of any
+dtype, from a bit string, from RDKit, results of operators, unpickled, NumPy-typed counts), with the fold cache of the
+result exercised; 5 conversion chains, repeated conversions and aliasing between source and result; 6 error paths and
+constructor argument forms of CountFingerprint (indices + counts, counts only, containers and dtypes of the index list);
+7 the vector views (to_vector with the dtype of another kind = what a database does when it casts an addition)."""
+import pickle
 from fractions import Fraction
 import numpy as np
 import core
@@ -9,6 +18,112 @@ import fpgen
 import fpio
 from fpgen import lit, attempt, result_lit
 from fpio import IMPORTS, rand_spec, build, xobs, xobs_json
+
+DT = {'KBit': np.bool_, 'KCount': np.uint16, 'KFloat': np.float64}
+KNOWN_ZERO = 'from_fingerprint:float-below-one-to-count'
+CACHE_KEY = 'from_fingerprint:fold-cache-keeps-source-kind'        # repro: findings/repro_cov_c17.py
+COPY_CACHE_KEY = 'from_fingerprint:fold-cache-copy-unusable'
+
+
+def conv_oracle(src_kind, k, cnt):
+    """Expected counts of C[k].from_fingerprint(source) for a well-formed source (written independently of the model)."""
+    if k == 'KBit' or src_kind == 'KBit':
+        return {j: Fraction(1) for j in cnt}
+    if k == 'KFloat':
+        return dict(cnt)
+    return {j: Fraction(int(v)) for j, v in cnt.items()}
+
+
+def well_formed(o):
+    return [j for j, _ in o['cnt']] == o['idx'] and all(v > 0 for _, v in o['cnt']) and o['idx'] == sorted(set(o['idx'])) \
+        and all(0 <= j < o['bits'] for j in o['idx'])
+
+
+def _pow2_spec(rng, kind=None, maxbits=2 ** 32, minbits=4):
+    bits = rng.choice([b for b in (4, 8, 16, 64, 1024, 4096, 2 ** 16, 2 ** 20, 2 ** 32) if minbits <= b <= maxbits])
+    return rand_spec(rng, kind=kind, bits=bits)
+
+
+def _entries(spec):
+    if 'cnt' in spec:
+        return sorted((int(k), Fraction(v)) for k, v in spec['cnt'].items())
+    return [(int(i), Fraction(1)) for i in spec['idx']]
+
+
+def route_source(rng, C):
+    """(route, fingerprint, rebuild) - `rebuild()` gives an equal fingerprint that carries no fold cache (or None)."""
+    from scipy.sparse import csr_matrix
+    route = rng.choice(['cached', 'cached', 'folded', 'vector_dense', 'vector_sparse', 'bitstring', 'rdkit', 'operator', 'operator',
+                        'pickled', 'np_typed', 'indices+counts'])
+    if route in ('cached', 'folded'):
+        spec = _pow2_spec(rng)
+        a = build(spec)
+        shifts = [s for s in (1, 1, 2, 3, 8, 31, 32) if (spec['bits'] >> s) >= 1]
+        if route == 'cached':
+            for _ in range(rng.choice([1, 1, 2])):
+                a.fold(spec['bits'] >> rng.choice(shifts), rng.choice([0, 0, 1]))
+            return route, a, (lambda: build(spec))
+        return route, a.fold(spec['bits'] >> rng.choice(shifts), rng.choice([0, 0, 1])), None
+    if route in ('vector_dense', 'vector_sparse', 'bitstring', 'rdkit'):
+        k0 = rng.choice(fpgen.KINDS)
+        bits = rng.choice([1, 2, 5, 8, 33, 64, 1024, 4096] if route != 'vector_sparse' else [8, 64, 4096, 99999, 2 ** 20, 2 ** 31 - 1, 2 ** 32])
+        idx = fpio.rand_index_set(rng, bits)
+        lv = rng.choice(fpio.LEVELS)
+        kw = {'level': lv}
+        nm = rng.choice(fpio.NAMES)
+        if nm:
+            kw['name'] = nm
+        if route == 'bitstring':
+            on = set(idx)
+            return route, C[k0].from_bitstring(''.join('1' if i in on else '0' for i in range(bits)), **kw), None
+        if route == 'rdkit':
+            return route, C[k0].from_rdkit(C['KBit'].from_indices(np.array(idx, dtype=np.int64), bits=bits).to_rdkit(), **kw), None
+        dt = rng.choice([np.bool_, np.uint16, np.int64, np.int8, np.uint8, np.float64, np.float32])
+        if dt is np.bool_:
+            vals = [1] * len(idx)
+        elif dt in (np.float64, np.float32):
+            vals = [float(Fraction(rng.choice([1, 3, 5, 9, 250]), rng.choice([1, 2, 4]))) for _ in idx]
+        else:
+            vals = [rng.choice([1, 1, 2, 7, 100]) for _ in idx]
+        if route == 'vector_dense':
+            vec = np.zeros(bits, dtype=dt)
+            for i, v in zip(idx, vals):
+                vec[i] = v
+        else:
+            vec = csr_matrix((np.array(vals, dtype=dt), (np.zeros(len(idx), dtype=np.int64), np.array(idx, dtype=np.int64))), shape=(1, bits), dtype=dt)
+        return route + '/' + np.dtype(dt).name, C[k0].from_vector(vec, **kw), None
+    if route == 'operator':
+        import e3fp.fingerprint.fprint as FP
+        k0 = rng.choice(fpgen.KINDS)
+        sx = _pow2_spec(rng, kind=k0, maxbits=2 ** 20)
+        sy = rand_spec(rng, kind=rng.choice([k0, k0, 'KCount' if k0 != 'KBit' else 'KBit']), bits=sx['bits'])
+        x, y = build(sx), build(sy)
+        if k0 == 'KBit':
+            op = rng.choice(['or', 'and', 'xor', 'add', 'batch_add', 'batch_mean'])
+        else:
+            op = rng.choice(['add', 'mul', 'div', 'floordiv', 'batch_add', 'batch_mean', 'sub'])
+        f = {'or': lambda: x | y, 'and': lambda: x & y, 'xor': lambda: x ^ y, 'add': lambda: x + y, 'sub': lambda: x - y,
+             'mul': lambda: x * rng.choice([2, 3, 1.5]), 'div': lambda: x / rng.choice([2, 4, 3]), 'floordiv': lambda: x // rng.choice([2, 3]),
+             'batch_add': lambda: FP.add([x, y]), 'batch_mean': lambda: FP.mean([x, y])}[op]
+        return route + '/' + op, f(), None
+    if route == 'pickled':
+        spec = rand_spec(rng)
+        return route, pickle.loads(pickle.dumps(build(spec), rng.choice([0, 2, pickle.HIGHEST_PROTOCOL]))), None
+    spec = rand_spec(rng, kind=rng.choice(['KCount', 'KFloat']))
+    kw = {'bits': spec['bits'], 'level': spec['level']}
+    if spec.get('name'):
+        kw['name'] = spec['name']
+    if route == 'np_typed':
+        vt = rng.choice([np.int64, np.uint16, np.int32, np.float32, np.float64] if spec['kind'] == 'KCount' else [np.float32, np.float64, np.int64])
+        cnt = {np.int64(i): vt(min(float(v), 60000)) for i, v in spec['cnt'].items()}
+        if spec['kind'] == 'KCount':
+            cnt = {i: (v if v >= 1 else vt(1)) for i, v in cnt.items()}
+        return route + '/' + np.dtype(vt).name, C[spec['kind']].from_counts(cnt, **kw), None
+    # indices + counts together: index list a shuffled Python list, counts keyed by Python ints
+    idx = list(spec['cnt'].keys())
+    rng.shuffle(idx)
+    conv = float if spec['kind'] == 'KFloat' else int
+    return route, C[spec['kind']].from_indices(idx + idx[:1], counts={int(i): conv(v) for i, v in spec['cnt'].items()}, **kw), None
 
 
 def part(ctx):
@@ -18,66 +133,81 @@ def part(ctx):
     dist = ctx.coverage.setdefault('input_distribution', {}) if isinstance(ctx.coverage.get('input_distribution'), dict) else {}
     ctx.coverage['input_distribution'] = dist
 
+    def bump(key, n=1):
+        dist[key] = dist.get(key, 0) + n
+
     def add(tag, expr, payload, m, nontrivial=True):
         key = 'fp/%s/%d' % (tag, len(cases))
         cases.append((key, expr))
         payloads[key] = dict(payload, section=tag)
         mexpr[key] = m
-        dist['fp/' + tag] = dist.get('fp/' + tag, 0) + 1
+        bump('fp/' + tag)
         ctx.count(('fp', tag, str(payload)), nontrivial)
 
     def prop_fail(key, what, payload):
         found[0] = True
         ctx.fail(what, payload, finding_key=key, kind='property-on-implementation')
 
-    # 1. all nine ordered kind pairs on well-formed fingerprints
-    for i in range(ctx.n(60, 1000)):
-        sa = rand_spec(rng, big=rng.random() < 0.2)
-        a = build(sa)
-        oa = xobs(a)
+    def known_zero(k, oa, ob, pl):
+        """OUTCOME test of the listed finding: the result lists a position whose stored count is 0 (a float value in (0,1)
+        truncated by int()); everything else about such a result is still compared by the caller and against the model."""
+        zero_listed = [j for j, v in ob['cnt'] if v == 0 and j in ob['idx']]
+        if zero_listed:
+            ctx.fail('%s.from_fingerprint(%s fingerprint) lists position(s) %s with stored count 0: the non-zero position is kept in indices but its value is zero'
+                     % (k, oa['kind'], zero_listed[:5]), dict(pl, positions_with_stored_zero=zero_listed),
+                     finding_key=KNOWN_ZERO, kind='property-on-implementation')
+            if not any(f.get('key') == KNOWN_ZERO and f.get('status') == 'known' for f in ctx.findings):
+                found[0] = True
+        return zero_listed
+
+    def convert_all(a, oa, tag, extra=None):
+        """All three conversions of one well-formed source: model tie + the property decided on the implementation."""
         pos = dict(oa['cnt'])
+        results = {}
         for k in fpgen.KINDS:
             r = attempt(lambda: C[k].from_fingerprint(a))
             ro = ('ok', xobs(r[1])) if r[0] == 'ok' else r
             m = 'from_fingerprint %s %s' % (k, lit(oa))
-            add('convert/%s->%s' % (oa['kind'], k), 'result_eqb fp_obs_eqb (%s) %s' % (m, result_lit(ro)),
-                {'a': xobs_json(oa), 'to': k, 'impl': xobs_json(ro[1]) if ro[0] == 'ok' else ro[1]}, m, bool(oa['idx']))
-            pl = {'a': xobs_json(oa), 'to': k}
+            add('%s/%s->%s' % (tag, oa['kind'], k), 'result_eqb fp_obs_eqb (%s) %s' % (m, result_lit(ro)),
+                dict({'a': xobs_json(oa), 'to': k, 'impl': xobs_json(ro[1]) if ro[0] == 'ok' else ro[1]}, **(extra or {})), m, bool(oa['idx']))
+            pl = dict({'a': xobs_json(oa), 'to': k}, **(extra or {}))
             if r[0] != 'ok':
                 prop_fail('convert:raised', '%s.from_fingerprint raised %s' % (k, r[1]), pl)
                 continue
             b, ob = r[1], ro[1]
+            results[k] = b
             pl['result'] = xobs_json(ob)
             if xobs(a) != oa:
                 prop_fail('convert:source-mutated', 'conversion changed its source', pl)
             if ob['kind'] != k or ob['bits'] != oa['bits'] or ob['level'] != oa['level'] or ob['name'] != oa['name'] or ob['props'] != oa['props']:
                 prop_fail('convert:frame', 'kind/bits/level/name/props not carried by the conversion', pl)
             # support: indices of the result = positions with a positive count in the source
-            if ob['idx'] != sorted(pos):
+            if ob['idx'] != sorted(pos) or [j for j, _ in ob['cnt']] != ob['idx']:
                 prop_fail('convert:support', 'indices of the result differ from the non-zero positions of the source', pl)
             # values
+            want = conv_oracle(oa['kind'], k, pos)
             for j, v in ob['cnt']:
-                src = pos.get(j)
-                want = 1 if (k == 'KBit' or oa['kind'] == 'KBit') else (src if k == 'KFloat' else Fraction(int(src)))
-                if v != want:
-                    prop_fail('convert:values', 'value at %d is %s, expected %s' % (j, v, want), pl)
+                if v != want.get(j):
+                    prop_fail('convert:values', 'value at %d is %s, expected %s' % (j, v, want.get(j)), pl)
                     break
-            # OUTCOME test of the listed finding: the result lists a position whose stored count is 0 (a float value in (0,1)
-            # truncated by int()); everything else about such a result is still compared above and against the model
-            zero_listed = [j for j, v in ob['cnt'] if v == 0 and j in ob['idx']]
-            if zero_listed:
-                ctx.fail('%s.from_fingerprint(%s fingerprint) lists position(s) %s with stored count 0: the non-zero position is kept in indices but its value is zero'
-                         % (k, oa['kind'], zero_listed[:5]), dict(pl, positions_with_stored_zero=zero_listed),
-                         finding_key='from_fingerprint:float-below-one-to-count', kind='property-on-implementation')
-                if not any(f.get('key') == 'from_fingerprint:float-below-one-to-count' and f.get('status') == 'known' for f in ctx.findings):
-                    found[0] = True
-            # get_count agrees with the model on and off the support
+            known_zero(k, oa, ob, pl)
+            # get_count agrees with the model on and off the support (index given as a Python int and as a NumPy integer)
             probes = (ob['idx'][:2] + [0, oa['bits'] - 1])[:4]
             for j in probes:
                 g = attempt(lambda: b.get_count(j))
                 if g[0] == 'ok':
                     add('get_count', 'Qeq_bool (get_count %s %s) %s' % (lit(ob), core.zlit(j), core.qlit(fpgen.fr(g[1]))),
                         {'a': xobs_json(ob), 'i': j, 'impl': str(g[1])}, 'get_count %s %s' % (lit(ob), core.zlit(j)), j in ob['idx'])
+                g2 = attempt(lambda: b.get_count(np.int64(j)))
+                if g2[0] != g[0] or (g[0] == 'ok' and fpgen.fr(g2[1]) != fpgen.fr(g[1])):
+                    prop_fail('get_count:numpy-index', 'get_count(np.int64(%d)) differs from get_count(%d)' % (j, j), pl)
+        return results
+
+    # 1. all nine ordered kind pairs on well-formed fingerprints
+    for i in range(ctx.n(60, 1000)):
+        sa = rand_spec(rng, big=rng.random() < 0.2)
+        a = build(sa)
+        convert_all(a, xobs(a), 'convert')
     # 2. count fingerprints from an index multiset (what the fingerprinter does with its identifier list)
     for i in range(ctx.n(50, 800)):
         bits = fpio.rand_bits(rng)
@@ -122,7 +252,243 @@ def part(ctx):
                                          'Count/FloatFingerprint.from_fingerprint drops positions whose count is negative (`c > 0`)') +
                                         ': the non-zero positions of a fingerprint holding zero/negative counts (e.g. a - b) are not preserved',
                                         {'a': xobs_json(oa), 'to': k, 'result': xobs_json(ro[1])})
+    # 4. sources that reached their state by another route; the fold cache of the result is exercised
+    for i in range(ctx.n(70, 1000)):
+        try:
+            route, a, rebuild = route_source(rng, C)
+        except Exception as e:  # noqa  (the constructors themselves belong to C09/C10/C11; here only their results are needed)
+            bump('fp/route/construction-raised-skipped')
+            continue
+        if a is None:
+            bump('fp/route/none-skipped')
+            continue
+        oa = xobs(a)
+        if not well_formed(oa):
+            bump('fp/route/%s/not-well-formed-skipped' % route.split('/')[0])
+            continue
+        extra = {'route': route}
+        res = convert_all(a, oa, 'route/' + route.split('/')[0], extra)
+        bump('fp/route-detail/' + route)
+        if not a.folded_fingerprint or rebuild is None:
+            continue
+        # a conversion must not depend on what the source happens to have cached: folding the result gives what folding a
+        # conversion of an equal, never-folded source gives (same class as the result, same support, same values)
+        for k, b in res.items():
+            for (nb, method) in sorted(a.folded_fingerprint, key=lambda t: (int(t[0]), int(t[1]))):
+                nb, method = int(nb), int(method)
+                g = attempt(lambda: b.fold(nb, method))
+                ref = attempt(lambda: C[k].from_fingerprint(rebuild()).fold(nb, method))
+                go = ('ok', xobs(g[1])) if g[0] == 'ok' else g
+                refo = ('ok', xobs(ref[1])) if ref[0] == 'ok' else ref
+                bump('fp/fold-after-convert/%s->%s' % (oa['kind'], k))
+                ctx.count(('fp-cache', str(oa), k, nb, method), True)
+                if go != refo:
+                    pl = {'a': xobs_json(oa), 'a_folded_before_conversion_to': [nb, method], 'to': k,
+                          'fold_of_result': xobs_json(go[1]) if go[0] == 'ok' else go[1],
+                          'fold_of_conversion_of_unfolded_source': xobs_json(refo[1]) if refo[0] == 'ok' else refo[1]}
+                    what = ('%s.from_fingerprint(%s fingerprint that has been folded to %d before).fold(%d) %s; the same on a source that was never folded gives %s'
+                            % (k, oa['kind'], nb, nb, ('raises ' + go[1]) if go[0] != 'ok' else 'returns a %s with counts %s' % (go[1]['kind'], [(j, str(v)) for j, v in go[1]['cnt']][:6]),
+                               ('raises ' + refo[1]) if refo[0] != 'ok' else 'a %s with counts %s' % (refo[1]['kind'], [(j, str(v)) for j, v in refo[1]['cnt']][:6])))
+                    # the two specific outcomes reproduced in findings/repro_cov_c17.py get their own keys; anything else is a plain failure
+                    src_kind_back = go[0] == 'ok' and k != oa['kind'] and go[1]['kind'] == oa['kind']
+                    raised = go[0] == 'err' and go[1] in ('EUnexpected_AssertionError', 'EUnexpected_AttributeError')
+                    if refo[0] == 'ok' and k != oa['kind'] and (src_kind_back or raised):
+                        key = CACHE_KEY
+                    elif refo[0] == 'ok' and k == oa['kind'] and k != 'KBit' and go == ('err', 'EUnexpected_AttributeError'):
+                        key = COPY_CACHE_KEY
+                    else:
+                        prop_fail('convert:fold-after-convert', what, pl)
+                        continue
+                    ctx.fail(what, pl, finding_key=key, kind='property-on-implementation')
+                    if not any(f.get('key') == key and f.get('status') == 'known' for f in ctx.findings):
+                        found[0] = True
+    # 5. chains, repeated conversions, aliasing between source and result
+    for i in range(ctx.n(40, 600)):
+        sa = rand_spec(rng, big=rng.random() < 0.1)
+        a = build(sa)
+        oa = xobs(a)
+        k1, k2 = rng.choice(fpgen.KINDS), rng.choice(fpgen.KINDS)
+        pl = {'a': xobs_json(oa), 'via': k1, 'to': k2}
+        r1 = attempt(lambda: C[k1].from_fingerprint(a))
+        if r1[0] != 'ok':
+            prop_fail('convert:raised', '%s.from_fingerprint raised %s' % (k1, r1[1]), pl)
+            continue
+        o1 = xobs(r1[1])
+        if any(v == 0 for _, v in o1['cnt']):
+            bump('fp/chain/intermediate-with-known-zero-skipped')       # consequence of the listed finding: the next conversion drops the position
+            continue
+        r2 = attempt(lambda: C[k2].from_fingerprint(r1[1]))
+        ro2 = ('ok', xobs(r2[1])) if r2[0] == 'ok' else r2
+        m = 'rbind (from_fingerprint %s %s) (fun r => from_fingerprint %s r)' % (k1, lit(oa), k2)
+        add('chain/%s->%s->%s' % (oa['kind'], k1, k2), 'result_eqb fp_obs_eqb (%s) %s' % (m, result_lit(ro2)),
+            dict(pl, impl=xobs_json(ro2[1]) if ro2[0] == 'ok' else ro2[1]), m, bool(oa['idx']))
+        if r2[0] != 'ok':
+            prop_fail('convert:raised', '%s.from_fingerprint raised %s on the result of a conversion' % (k2, r2[1]), pl)
+            continue
+        o2 = ro2[1]
+        want = conv_oracle(k1, k2, conv_oracle(oa['kind'], k1, dict(oa['cnt'])))
+        zl = known_zero(k2, o1, o2, pl)
+        if o2['idx'] != oa['idx'] or dict(o2['cnt']) != want or o2['props'] != oa['props'] or o2['name'] != oa['name'] or o2['level'] != oa['level']:
+            prop_fail('convert:chain', 'conversion %s -> %s -> %s: support / values / props differ from the composition of the two casts' % (oa['kind'], k1, k2),
+                      dict(pl, result=xobs_json(o2), expected={str(j): str(v) for j, v in want.items()}))
+        # round trip through a kind that can represent the values gives the source back
+        if k2 == oa['kind'] and (k1 == 'KFloat' or k1 == oa['kind'] or oa['kind'] == 'KBit') and not fpio.same_content(o2, oa, props=True):
+            prop_fail('convert:roundtrip', 'conversion %s -> %s -> %s does not give the source back' % (oa['kind'], k1, k2), dict(pl, result=xobs_json(o2)))
+        # the same conversion again (A, B, A): equal result, distinct objects
+        r1b = attempt(lambda: C[k1].from_fingerprint(a))
+        if r1b[0] != 'ok' or xobs(r1b[1]) != o1 or r1b[1] is r1[1] or r1b[1] is a:
+            prop_fail('convert:repeat', 'converting the same object twice (with another conversion in between) gives different results or the same object', pl)
+            continue
+        # aliasing: writes to the result do not reach the source or an earlier result, writes to the source do not reach a result
+        b, b2 = r1[1], r1b[1]
+        ctx.count(('fp-alias', str(oa), k1), True)
+        bump('fp/alias')
+        b.set_prop('c17_marker', 1)
+        shares = np.shares_memory(b.indices, a.indices) or np.shares_memory(b.indices, b2.indices)
+        if k1 != 'KBit' and o1['idx']:
+            b.counts[o1['idx'][0]] = 12345
+        if 'c17_marker' in a.props or 'c17_marker' in b2.props or xobs(a) != oa or xobs(b2) != o1 or shares or b.props is a.props \
+                or (k1 != 'KBit' and oa['kind'] != 'KBit' and b.counts is a.counts):
+            prop_fail('convert:aliasing', 'the result of a conversion shares state with its source or with another result of the same conversion', pl)
+        if oa['kind'] != 'KBit' and oa['idx']:
+            a.counts[oa['idx'][0]] = 54321
+        a.set_prop('c17_marker2', 2)
+        if xobs(b2) != o1:
+            prop_fail('convert:aliasing', 'a later write to the source changes the result of an earlier conversion', pl)
+    # 6. error paths and constructor argument forms
+    from e3fp.fingerprint.db import FingerprintDatabase
+    junk = [None, 3, 'x', [1, 2], (1, 2), {1: 2}, np.array([1, 2]), FingerprintDatabase()]
+    for k in fpgen.KINDS:
+        for x in junk:
+            r = attempt(lambda: C[k].from_fingerprint(x))
+            ctx.count(('fp-junk', k, type(x).__name__), True)
+            bump('fp/from_fingerprint-of-non-fingerprint')
+            if r != ('err', 'EInvalidFp'):
+                prop_fail('convert:non-fingerprint', '%s.from_fingerprint(%s) %s instead of raising E3FPInvalidFingerprintError' % (k, type(x).__name__, 'returned' if r[0] == 'ok' else 'raised ' + r[1]),
+                          {'to': k, 'argument': repr(x)[:60]})
+    r = attempt(lambda: C['KCount']())
+    if r != ('err', 'EOption'):
+        prop_fail('ctor:neither', 'CountFingerprint() without indices and counts: %s' % (r,), {})
+    for i in range(ctx.n(60, 900)):
+        bits = fpio.rand_bits(rng)
+        base = fpio.rand_index_set(rng, bits)
+        k = rng.choice(['KCount', 'KFloat', 'KCount', 'KBit'])
+        lv = rng.choice(fpio.LEVELS)
+        form = rng.choice(['container', 'container', 'indices+counts', 'indices+counts', 'counts-only', 'mismatch', 'out-of-range', 'heavy'])
+        kw = {'bits': bits, 'level': lv}
+        plain = lambda v: str(fpgen.fr(v)) if not isinstance(v, (int, np.integer)) else int(v)
+        if form in ('container', 'heavy'):
+            multi = []
+            for j in (base if form == 'container' else base[:5]):
+                multi += [j] * (rng.choice([1, 1, 2, 3]) if form == 'container' else rng.choice([1, 40, 300, 1000]))
+            rng.shuffle(multi)
+            cont = rng.choice(['list', 'tuple', 'int32', 'uint32', 'uint64', 'int64-noncontiguous', 'list-of-numpy', 'empty'] if form == 'container' else ['list', 'int64'])
+            fits32 = all(j < 2 ** 31 for j in multi)
+            if cont == 'empty':
+                multi = []
+            arg = {'list': lambda: list(multi), 'tuple': lambda: tuple(multi), 'int64': lambda: np.array(multi, dtype=np.int64),
+                   'int32': lambda: np.array(multi, dtype=np.int32 if fits32 else np.int64), 'uint32': lambda: np.array(multi, dtype=np.uint32 if all(j < 2 ** 32 for j in multi) else np.int64),
+                   'uint64': lambda: np.array(multi, dtype=np.uint64), 'list-of-numpy': lambda: [np.int64(j) for j in multi], 'empty': lambda: [],
+                   'int64-noncontiguous': lambda: np.array([x for j in multi for x in (j, 0)], dtype=np.int64)[::2]}[cont]()
+            r = attempt(lambda: C[k].from_indices(arg, **kw))
+            m = 'from_index_list %s %s %s %s None' % (k, core.zlist(multi), core.zlit(bits), core.optlit(lv))
+            pl = {'form': form, 'container': cont, 'indices': multi if len(multi) < 200 else {'distinct': sorted(set(multi)), 'multiplicities': [multi.count(j) for j in sorted(set(multi))]},
+                  'bits': bits, 'kind': k}
+            want_idx = sorted(set(multi))
+            want_cnt = [(j, Fraction(1 if k == 'KBit' else multi.count(j))) for j in want_idx]
+            want = ('ok', want_idx, want_cnt)
+        elif form in ('indices+counts', 'mismatch', 'out-of-range'):
+            idx = list(base)
+            vals = {int(j): (rng.choice([1, 2, 7, 200, 70000]) if k != 'KFloat' else float(Fraction(rng.choice([1, 3, 5, 250]), rng.choice([1, 2, 8])))) for j in idx}
+            if k == 'KCount' and rng.random() < 0.3:
+                vals = {j: rng.choice([np.int64(v), np.uint32(v), float(v), float(v) + 0.75]) for j, v in vals.items()}     # int() of each value is stored
+            err = None
+            if form == 'mismatch':
+                free = [j for j in range(min(bits, 50)) if j not in vals]
+                if rng.random() < 0.5 and free:
+                    vals[free[0]] = 1                       # a key of counts that is not an index
+                    err = 'ECounts'
+                elif idx:
+                    del vals[idx[0]]                        # an index without a count
+                    err = 'ECounts'
+            if form == 'out-of-range':
+                idx = idx + [bits + rng.choice([0, 1, 7])]
+                vals[idx[-1]] = 1
+                err = 'EBits'
+            given = list(idx) + ([idx[0]] if idx and rng.random() < 0.3 else [])
+            rng.shuffle(given)
+            r = attempt(lambda: C[k].from_indices(given, counts=dict(vals), **kw))
+            cl = fpio.entries_lit(sorted((j, fpgen.fr(v)) for j, v in vals.items()))
+            if k == 'KBit':
+                m = 'mk_bit %s %s %s None' % (core.zlist(given), core.zlit(bits), core.optlit(lv))
+                err = err if err == 'EBits' else None         # the bit class ignores `counts`
+                want = ('err', err) if err else ('ok', sorted(set(given)), [(j, Fraction(1)) for j in sorted(set(given))])
+            else:
+                m = 'mk_count %s %s %s %s %s None' % (k, core.zlist(given), cl, core.zlit(bits), core.optlit(lv))
+                want = ('err', err) if err else ('ok', sorted(set(given)), [(j, Fraction(int(vals[j])) if k == 'KCount' else fpgen.fr(vals[j])) for j in sorted(set(given))])
+            pl = {'form': form, 'indices': given, 'counts': {str(j): plain(v) for j, v in vals.items()}, 'value_types': sorted(set(type(v).__name__ for v in vals.values())), 'bits': bits, 'kind': k}
+        else:
+            k = k if k != 'KBit' else 'KCount'
+            vals = {(np.int64(j) if rng.random() < 0.5 else int(j)): (rng.choice([1, 2, 7, 65535, 2 ** 40]) if k == 'KCount' else float(Fraction(rng.choice([1, 3, 5, 250]), rng.choice([1, 2, 8])))) for j in base}
+            over = rng.random() < 0.15
+            if over:
+                vals[bits + rng.choice([0, 3])] = 1
+            r = attempt(lambda: C[k].from_counts(dict(vals), **kw))
+            m = 'mk_from_counts %s %s %s %s None' % (k, fpio.entries_lit(sorted((int(j), fpgen.fr(v)) for j, v in vals.items())), core.zlit(bits), core.optlit(lv))
+            want = ('err', 'EBits') if over else ('ok', sorted(int(j) for j in vals), sorted((int(j), fpgen.fr(v)) for j, v in vals.items()))
+            pl = {'form': form, 'counts': {str(int(j)): plain(v) for j, v in vals.items()}, 'bits': bits, 'kind': k}
+        ro = ('ok', xobs(r[1])) if r[0] == 'ok' else r
+        add('ctor/%s/%s' % (form, k), 'result_eqb fp_obs_eqb (%s) %s' % (m, result_lit(ro)), dict(pl, impl=xobs_json(ro[1]) if ro[0] == 'ok' else ro[1]), m, True)
+        if 'container' in pl:
+            bump('fp/ctor-container/' + pl['container'])
+        got = ('err', ro[1]) if ro[0] != 'ok' else ('ok', ro[1]['idx'], ro[1]['cnt'])
+        if got != want:
+            prop_fail('ctor:' + form, '%s built from %s: %s, expected %s' % (k, form, str(got)[:200], str(want)[:200]), dict(pl, result=xobs_json(ro[1]) if ro[0] == 'ok' else ro[1]))
+    # multiplicities beyond the range of the count dtype (uint16) are still exact in the fingerprint (decided on the implementation:
+    # an index list of 70000 entries is too long a literal for the model)
+    for mult in (255, 256, 65535, 65536, 70000):
+        j = rng.randrange(0, 1024)
+        for k in ('KCount', 'KFloat', 'KBit'):
+            r = attempt(lambda: xobs(C[k].from_indices(np.concatenate([np.full(mult, j, dtype=np.int64), np.array([1023, 1023], dtype=np.int64)]), bits=1024)))
+            ctx.count(('fp-very-heavy', k, mult), True)
+            bump('fp/ctor/very-heavy-multiplicity')
+            want = sorted({j: Fraction(1 if k == 'KBit' else mult), 1023: Fraction(1 if k == 'KBit' else 2 + (mult if j == 1023 else 0))}.items())
+            if r[0] != 'ok' or r[1]['cnt'] != want:
+                prop_fail('ctor:very-heavy', '%s from an index list holding %d %d times: %s' % (k, j, mult, (r[1]['cnt'] if r[0] == 'ok' else r[1])), {'index': j, 'times': mult, 'kind': k})
+    # 7. vector views: to_vector with the dtype of another kind (the cast a database applies to an addition) agrees with the
+    #    vector of the converted fingerprint, and reading the vector back gives the conversion's non-zero positions and values
+    for i in range(ctx.n(40, 600)):
+        sa = rand_spec(rng, maxbits=rng.choice([4096, 4096, 2 ** 32]))
+        a = build(sa)
+        oa = xobs(a)
+        pos = dict(oa['cnt'])
+        for k in fpgen.KINDS:
+            if k == 'KCount' and any(v >= 65536 for v in pos.values()):
+                bump('fp/vector/not-representable-in-uint16-skipped')
+                continue
+            want = {j: v for j, v in conv_oracle(oa['kind'], k, pos).items() if v != 0}
+            for sparse in ([True, False] if oa['bits'] <= 4096 else [True]):
+                pl = {'a': xobs_json(oa), 'dtype_of': k, 'sparse': sparse}
+                ctx.count(('fp-vector', str(oa), k, sparse), bool(pos))
+                bump('fp/vector/%s-as-%s/%s' % (oa['kind'], k, 'sparse' if sparse else 'dense'))
+                v = attempt(lambda: a.to_vector(sparse=sparse, dtype=DT[k]))
+                w = attempt(lambda: C[k].from_fingerprint(a).to_vector(sparse=sparse))
+                if v[0] != 'ok' or w[0] != 'ok':
+                    prop_fail('vector:raised', 'to_vector raised (%s / %s)' % (v[1] if v[0] != 'ok' else 'ok', w[1] if w[0] != 'ok' else 'ok'), pl)
+                    continue
+                ents = lambda x: {j: q for j, q in (fpio.csr_obs(x)[1] if sparse else fpio.dense_obs(x)[1]) if q != 0}
+                ev, ew = ents(v[1]), ents(w[1])
+                if v[1].dtype != np.dtype(DT[k]) or w[1].dtype != np.dtype(DT[k]) or v[1].shape != w[1].shape:
+                    prop_fail('vector:dtype', 'dtype / shape of the vector is not that of the requested kind', dict(pl, dtypes=[str(v[1].dtype), str(w[1].dtype)]))
+                if not (ev == ew == want):
+                    prop_fail('vector:cast-vs-conversion', 'to_vector(dtype of %s) of a %s fingerprint, the vector of its conversion and the expected cast differ' % (k, oa['kind']),
+                              dict(pl, cast={str(j): str(q) for j, q in ev.items()}, converted={str(j): str(q) for j, q in ew.items()}, expected={str(j): str(q) for j, q in want.items()}))
+                back = attempt(lambda: xobs(C[k].from_vector(v[1], level=a.level)))
+                if back[0] != 'ok' or {j: q for j, q in back[1]['cnt'] if q != 0} != want or back[1]['kind'] != k or back[1]['bits'] != oa['bits']:
+                    prop_fail('vector:read-back', '%s.from_vector of the cast vector does not give the non-zero positions / values of the conversion' % k,
+                              dict(pl, back=xobs_json(back[1]) if back[0] == 'ok' else back[1]))
     nbad = core.compare_cases(ctx, cases, IMPORTS, 'C17 fingerprint conversions', payloads, model_expr=mexpr,
                               finding_key_of=lambda k, pl: 'model:%s' % pl.get('section'))
-    ctx.assumptions += ['fingerprint conversions: the domain is well-formed sources (every listed position has a positive count). A float value in (0,1) converted to the count kind is inside the domain and is reported through the known-finding key from_fingerprint:float-below-one-to-count (outcome test: a listed position with stored count 0). Only sources that themselves hold zero or negative counts (results of subtraction; not "counts" of set bits) are outside the domain: what from_fingerprint does with them is compared with the model and recorded as an evidence note, not failed']
+    ctx.assumptions += ['fingerprint conversions: the domain is well-formed sources (every listed position has a positive count). A float value in (0,1) converted to the count kind is inside the domain and is reported through the known-finding key from_fingerprint:float-below-one-to-count (outcome test: a listed position with stored count 0). Only sources that themselves hold zero or negative counts (results of subtraction; not "counts" of set bits) are outside the domain: what from_fingerprint does with them is compared with the model and recorded as an evidence note, not failed',
+                        'vector views: float values >= 65536 are not cast to the uint16 count dtype (not representable; C semantics of the cast)']
     return found[0] or nbad > 0
